@@ -538,6 +538,11 @@ func (r *Reader) extractTextWithFragments(page *pages.Page) (*text.Extractor, []
 		if err != nil {
 			return nil, nil, fmt.Errorf("failed to decode content stream: %w", err)
 		}
+		// Streams of a /Contents array are divided at token boundaries; keep
+		// the tokens on either side of a boundary apart (ISO 32000-1 7.8.2).
+		if len(allData) > 0 {
+			allData = append(allData, '\n')
+		}
 		allData = append(allData, data...)
 	}
 
